@@ -573,6 +573,40 @@ def corner_cases():
     return out
 
 
+def run_threads_case(cases, seed, acc):
+    """Four threads query the memory figures of *different* simulated processes at once (static table)."""
+    from vlib import concur
+    env = setup()
+    ps, vkernel, ProcTable = env["ps"], env["vkernel"], env["ProcTable"]
+    t = ProcTable(btime=1_700_000_000)
+    t.spawn(1, 1, ppid=0, comm=b"init")
+    t.rootfiles["meminfo"] = render_meminfo(cases[0]["memtotal_kb"])
+    pids = []
+    for k, case in enumerate(cases):
+        pid = 300 + k
+        p = t.spawn(pid, 500 + k, ppid=1, comm=b"mem%d" % k)
+        p.statm = tuple(case["statm"])
+        p.smaps = render_smaps(case)
+        p.smaps_rollup = render_rollup(case) if k % 2 == 0 else None
+        pids.append(pid)
+    vk = vkernel.VK()
+    vk.table = t
+    vk.mount("/vproc", t)
+    with vk:
+        ps.virtual_memory()
+        jobs = {}
+        for pid in pids:
+            pr = ps.Process(pid)
+            jobs[f"memory_info@{pid}"] = pr.memory_info
+            jobs[f"memory_full_info@{pid}"] = pr.memory_full_info
+            jobs[f"memory_maps@{pid}"] = pr.memory_maps
+            jobs[f"memory_maps_ungrouped@{pid}"] = lambda pr=pr: pr.memory_maps(grouped=False)
+            jobs[f"memory_percent@{pid}"] = lambda pr=pr: pr.memory_percent("pss")
+        _b, errors, wrong = concur.concurrent_vs_sequential(jobs, seed, calls=50)
+    acc.count("concurrent_calls_compared", 200)
+    acc.case(dict(kind="threads", seed=seed), True, concur.violations(errors, wrong))
+
+
 # ---- live kernel: a real child with files mapped several times, anonymous and deleted mappings -------------------------
 
 LIVE_CHILD = r"""
@@ -737,6 +771,7 @@ def plan(tier, seed):
     for s, c in harness.split_range(n, 16 if tier == "quick" else 48):
         shards.append(dict(kind="gen", seed=seed, start=s, count=c))
     shards.append(dict(kind="live"))
+    shards.append(dict(kind="threads", seed=seed, count=15 if tier == "quick" else 400))
     return shards
 
 
@@ -753,9 +788,16 @@ def run_shard(shard):
             run_case(gen_case(rng), acc)
     elif shard["kind"] == "live":
         run_live(shard, acc)
+    elif shard["kind"] == "threads":
+        for i in range(shard["count"]):
+            cs = [gen_case(harness.rng_for(shard["seed"], "c13t", i, k)) for k in range(4)]
+            run_threads_case(cs, shard["seed"] * 7919 + i, acc)
     elif shard["kind"] == "cases":
         for case in shard["cases"]:
-            if case.get("kind") == "live":
+            if case.get("kind") == "threads":
+                cs = [gen_case(harness.rng_for(case["seed"] // 7919, "c13t", case["seed"] % 7919, k)) for k in range(4)]
+                run_threads_case(cs, case["seed"], acc)
+            elif case.get("kind") == "live":
                 run_live({}, acc)
             else:
                 run_case(case, acc)
